@@ -15,7 +15,13 @@ G = os.path.join(os.path.dirname(os.path.dirname(os.path.abspath(__file__))), "g
 
 def load_arrays():
     with gzip.open(os.path.join(G, "arrays.pkl.gz"), "rb") as f:
-        return pickle.load(f)
+        arrays = pickle.load(f)
+    # arrays caught in the middle of a hash migration, both directions (tools/make_golden2.py)
+    p2 = os.path.join(G, "arrays_migration.pkl.gz")
+    if os.path.exists(p2):
+        with gzip.open(p2, "rb") as f:
+            arrays += pickle.load(f)
+    return arrays
 
 
 def lcg_input():
